@@ -394,3 +394,5 @@ _quick("C08", "C08_valappend", "a log of two valued records (symbolic record byt
 _quick("C20", "C20_restructure", "LockQueue, LockCommandQueue and LockManagerQueue with geometry (1,8,2) and (4,8,2): filled with 7 / 15 / 30 elements and the tail taken back by 0 / 1 / 3 PopRight, or filled with 40, drained, Reset and refilled with 3 / 8 / 14; all but 0..2 elements popped; Restructuring; 5 / 20 / 45 more pushes across node boundaries; drain: every element and length as a plain deque's", ["-witness", "40"])
 
 _quick("C11", "C11_reentry", "a hold (Rcount 3) taken with the require-ack flag and fully acknowledged (leader flush + one follower, mode all); the same LockId locks a second level with the require-ack flag, with or without the leader's flush following: no SUCCED for the second level while no follower has acknowledged its record", ["-witness", "1"], reach=["first-level-held"])
+
+_quick("C11", "C11_update", "a hold taken with SET v1 (2 symbolic bytes) under the require-ack flag and acknowledged; an update (update-when-locked flag) carrying SET v2 and the require-ack flag goes pending; leader flush, then a negative follower acknowledgement: exactly one non-SUCCED reply and the key's value is v1 again", ["-witness", "1"], reach=["update-pending"])
